@@ -287,21 +287,32 @@ func workerReplay(t *testing.T) {
 	if os.Getenv("VERIF_TRACE") != "" {
 		traceOn()
 	}
-	res := Exec(t, rf.Plan, true)
-	vs := pd.Check(res)
-	if os.Getenv("VERIF_TRACE") != "" {
-		for _, l := range res.Log {
-			fmt.Fprintln(os.Stderr, l)
+	// The plan is executed up to three times in this fresh process. A deterministic violation reproduces on the
+	// first execution; one that needs state the code under test carries from one run to the next (a package-level
+	// pool or cache - state no seam owns) reproduces on a later one. The procedure is itself a fixed function of the
+	// file and the code.
+	var res *Result
+	var vs []Violation
+	for attempt := 1; attempt <= 3; attempt++ {
+		res = Exec(t, rf.Plan, true)
+		vs = pd.Check(res)
+		if os.Getenv("VERIF_TRACE") != "" {
+			for _, l := range res.Log {
+				fmt.Fprintln(os.Stderr, l)
+			}
+			for _, e := range res.Hist {
+				eb, _ := json.Marshal(e)
+				fmt.Fprintln(os.Stderr, string(eb))
+			}
 		}
-		for _, e := range res.Hist {
-			eb, _ := json.Marshal(e)
-			fmt.Fprintln(os.Stderr, string(eb))
+		for _, v := range vs {
+			if v.Rule == rf.Rule && (rf.Property != "C18" || v.Sig == rf.Sig) {
+				fmt.Fprintf(os.Stderr, "REPRODUCED property=%s rule=%s sig=%s loghash=%016x steps=%d execution=%d\n  %s\n", rf.Property, v.Rule, v.Sig, res.LogHash, res.Steps, attempt, v.Msg)
+				return
+			}
 		}
-	}
-	for _, v := range vs {
-		if v.Rule == rf.Rule && (rf.Property != "C18" || v.Sig == rf.Sig) {
-			fmt.Fprintf(os.Stderr, "REPRODUCED property=%s rule=%s sig=%s loghash=%016x steps=%d\n  %s\n", rf.Property, v.Rule, v.Sig, res.LogHash, res.Steps, v.Msg)
-			return
+		if rf.Property == "C18" {
+			break // the race detector reports a pair of stacks once per process
 		}
 	}
 	fmt.Fprintf(os.Stderr, "NOT-REPRODUCED property=%s rule=%s (run produced %d other violations) loghash=%016x\n", rf.Property, rf.Rule, len(vs), res.LogHash)
